@@ -68,7 +68,7 @@ fn pointer_family() -> GenParams {
     }
 }
 
-fn reborn_family() -> GenParams {
+pub fn reborn_family() -> GenParams {
     GenParams {
         family: "reborn",
         specs: crate::world::CREATE2_SPECS,
